@@ -446,6 +446,23 @@ def check(ctx):
                          '%s can run on the very thread it joins (%s): unprotected it raises RuntimeError, aborting the disconnect path; protection: %s'
                          % (norm(c), ' ; '.join(cg.chain(r, f_id)[-4:]) or 'direct', how), line=c.lineno)
     ctx.need(n8 >= 3, 'self-join analysis found only %d candidate sites' % n8)
+    # ... and a driver that reads its device from a thread of its own stops that thread BEFORE it gives the device back: a receiver that
+    # is still reading sees the closed device as a link error and reports it in the middle of close_link (a second `disconnected`)
+    n_cl = 0
+    for path_, cls_, dev_ in (('cflib/crtp/usbdriver.py', 'UsbDriver', 'self.cfusb'), ('cflib/crtp/radiodriver.py', 'RadioDriver', 'self._radio')):
+        fcl = m.cls(path_, cls_).method('close')
+        gcl = cfg_of(fcl)
+        stops = [n for n, c in gcl.find(lambda q: method_call(q, 'stop') and norm(q.func.value) == 'self._thread')]
+        # (the device may be released through a helper of the class: one level is followed)
+        rel = [n for n, c in gcl.find(lambda q: method_call(q, 'close') and norm(q.func.value) == dev_)]
+        for n, c in gcl.find(lambda q: isinstance(q, ast.Call) and isinstance(q.func, ast.Attribute) and norm(q.func.value) == 'self' and m.cls(path_, cls_).has(q.func.attr)):
+            h_ = m.cls(path_, cls_).method(c.func.attr)
+            if any(method_call(x, 'close') and norm(x.func.value) == dev_ for x in walk_own(h_.node)):
+                rel.append(n)
+        n_cl += 1
+        ctx.inst('R8', fcl, 'thread-stopped-before-device-released', len(stops) == 1 and bool(rel) and all(gcl.dominates(stops[0], r_) and stops[0] is not r_ for r_ in rel),
+                 '%s.close(): self._thread.stop() comes before %s.close() on every path' % (cls_, dev_))
+    ctx.need(n_cl == 2, 'driver close() functions not found')
 
     # ---- R11: `connected` only once the tables are complete (shared guard rule, see C03.R1) ---------
     fetcher_, cb_, gf_, _pkv, _adds, reqs_ = fetch_guard_rules(ctx, 'R11')
